@@ -9,8 +9,16 @@ import Lattigo.Model.Store
     inputs <op> <s0> <s1>             are all arguments other than the output unchanged
                                       (`same-as-fresh` = unchanged, `differs` = some argument rewritten)
     addhist <d0> <d1> <dOut>          ct+ct Add with an output that previously had degree dOut
+    aliasd <opD> <pattern> <d0> <d1> <dOut> <s0> <s1>
+                                      degree-aware operations (operands of degree d0, d1 ≤ 2; a distinct receiver
+                                      previously of degree dOut ≤ 2): `same-as-fresh` / `differs` / `err` / `panic`
+    shape <opS> <pattern> <sh0> <sh1> <shOut>
+                                      levels `l0,l1,…` of the polynomials of op0, op1 and the receiver before the
+                                      call ⇒ levels of the receiver's polynomials after it, or `err` / `panic`
   ops: ckksEval ckksMul ckksMulRelin bgvTensor bgvTensorRelin bgvTensorSI bgvTensorSIRelin
        bgvMatchScale bgvAddBig bgvMulBig rlweAut rlwePTS:<n> divRound divRoundNTT
+  opD: ckksAdd ckksSub ckksMul ckksMulRelin bgvMul bgvMulRelin
+  opS: addLike ckksMul ckksMulRelin bgvMul bgvMulRelin bgvMulSI bgvMulRelinSI unaryBig rlweAut rlwePTS
   patterns: distinct out=op0 out=op1 op0=op1 all
 -/
 namespace Driver.C09
@@ -45,6 +53,47 @@ def parseAlias? (s : String) : Option Alias :=
   | "all" => some .allEq
   | _ => none
 
+def parseOpD? (s : String) : Option OpD :=
+  match s with
+  | "ckksAdd" => some .ckksAdd
+  | "ckksSub" => some .ckksSub
+  | "ckksMul" => some .ckksMul
+  | "ckksMulRelin" => some .ckksMulRelin
+  | "bgvMul" => some .bgvMul
+  | "bgvMulRelin" => some .bgvMulRelin
+  | _ => none
+
+def parseOpS? (s : String) : Option OpS :=
+  match s with
+  | "addLike" => some .addLike
+  | "ckksMul" => some (.ckksMul false)
+  | "ckksMulRelin" => some (.ckksMul true)
+  | "bgvMul" => some (.bgvMul false)
+  | "bgvMulRelin" => some (.bgvMul true)
+  | "bgvMulSI" => some (.bgvMulSI false)
+  | "bgvMulRelinSI" => some (.bgvMulSI true)
+  | "unaryBig" => some .unaryBig
+  | "rlweAut" => some .rlweAut
+  | "rlwePTS" => some .rlwePTS
+  | _ => none
+
+/-- a non-empty list of at most 4 levels ≤ 64 -/
+def parseShape? (s : String) : Option Shape :=
+  let parts := s.splitOn ","
+  let vals := parts.filterMap parseNat?
+  if vals.length ≠ parts.length ∨ vals.isEmpty ∨ vals.length > 4 ∨ vals.any (· > 64) then none else some vals
+
+def showOutcomeD : OutcomeD → String
+  | .sameAsFresh => "same-as-fresh"
+  | .differs => "differs"
+  | .err => "err"
+  | .panic => "panic"
+
+def showShape : Gen Shape → String
+  | .ok s => ",".intercalate (s.map toString)
+  | .err => "err"
+  | .panic => "panic"
+
 def showOutcome : Outcome → String
   | .sameAsFresh => "same-as-fresh"
   | .differs => "differs"
@@ -63,6 +112,15 @@ def handle (toks : List String) : String :=
     match parseNat? d0, parseNat? d1, parseNat? dOut with
     | some a, some b, some c => if a > 8 ∨ b > 8 ∨ c > 8 then badOp else showOutcome (predictAddHistory a b c)
     | _, _, _ => badOp
+  | ["aliasd", op, pat, d0, d1, dOut, s0, s1] =>
+    match parseOpD? op, parseAlias? pat, parseNat? d0, parseNat? d1, parseNat? dOut, parseInt? s0, parseInt? s1 with
+    | some o, some a, some x, some y, some z, some u, some v =>
+      if x > 2 ∨ y > 2 ∨ z > 2 then badOp else showOutcomeD (predictAliasD o a x y z u v)
+    | _, _, _, _, _, _, _ => badOp
+  | ["shape", op, pat, s0, s1, sOut] =>
+    match parseOpS? op, parseAlias? pat, parseShape? s0, parseShape? s1, parseShape? sOut with
+    | some o, some a, some x, some y, some z => showShape (predictShape o a x y z)
+    | _, _, _, _, _ => badOp
   | _ => badOp
 
 end Driver.C09
